@@ -356,12 +356,13 @@ type SpecDB struct {
 	Schemas   []*Schema
 	Lemmas    []*Lemma
 	Tables    map[string]map[string]string // table name -> key -> value (for schema substitution)
+	UFuns     map[string]string            // uninterpreted spec functions: name -> result sort
 	Order     []string
 }
 
 var clauseKW = map[string]bool{"requires": true, "ensures": true, "assigns": true, "loop": true, "mode": true,
 	"trusted": true, "pure": true, "inline": true, "props": true, "let": true, "fuel": true, "params": true, "results": true, "where": true, "config": true}
-var blockKW = map[string]bool{"spec": true, "func": true, "schema": true, "lemma": true, "table": true}
+var blockKW = map[string]bool{"spec": true, "func": true, "schema": true, "lemma": true, "table": true, "ufun": true}
 
 // readContractLines extracts //@ lines (also "// @") from a Go file.
 func readContractLines(path string) ([]string, []int, error) {
@@ -420,7 +421,7 @@ func joinContinuations(lines []string, nums []int) ([]string, []int) {
 }
 
 func NewSpecDB() *SpecDB {
-	return &SpecDB{Fns: map[string]*SpecFn{}, Contracts: map[string]*Contract{}, Tables: map[string]map[string]string{}}
+	return &SpecDB{Fns: map[string]*SpecFn{}, Contracts: map[string]*Contract{}, Tables: map[string]map[string]string{}, UFuns: map[string]string{}}
 }
 
 func (db *SpecDB) LoadFile(path string) error {
@@ -440,6 +441,14 @@ func (db *SpecDB) LoadFile(path string) error {
 			if err := db.parseSpecFn(rest); err != nil {
 				return fmt.Errorf("%s: %v", loc, err)
 			}
+		case "ufun":
+			cur, curSchema = nil, nil
+			// ufun name(p1, p2) int|bool : uninterpreted specification function
+			m := ufunRe.FindStringSubmatch(rest)
+			if m == nil {
+				return fmt.Errorf("%s: bad ufun %q", loc, rest)
+			}
+			db.UFuns[m[1]] = m[3]
 		case "table":
 			cur, curSchema = nil, nil
 			// table name k=v; k=v; ...
@@ -510,6 +519,8 @@ func (db *SpecDB) LoadFile(path string) error {
 	}
 	return nil
 }
+
+var ufunRe = regexp.MustCompile(`^([A-Za-z_][A-Za-z0-9_]*)\s*\(([^)]*)\)\s*(int|bool)\s*$`)
 
 var labelRe = regexp.MustCompile(`^\[([A-Za-z0-9_.\-]+)\]\s*(.*)$`)
 
@@ -756,7 +767,29 @@ func (db *SpecDB) Instantiate(s *Schema, key string, extra map[string]string) (*
 		sub[v] = m[i+1]
 	}
 	for k, v := range extra {
-		sub[k] = v
+		if _, isPat := sub[k]; !isPat {
+			sub[k] = v
+		}
+	}
+	for v, alts := range s.Where {
+		isPat := false
+		for _, pv := range vars {
+			if pv == v {
+				isPat = true
+			}
+		}
+		if isPat {
+			continue
+		}
+		ok := false
+		for _, a := range alts {
+			if sub[v] == a {
+				ok = true
+			}
+		}
+		if !ok {
+			return nil, nil, nil
+		}
 	}
 	c := &Contract{Key: key, Schema: s.Name, Mode: "unbounded", File: s.File, Line: s.Line, NoPanic: true, Props: s.Props, Config: map[string]string{}}
 	for _, ln := range s.Lines {
@@ -793,6 +826,11 @@ func substPlaceholders(ln string, sub map[string]string, tables map[string]map[s
 				return m
 			}
 			v, ok := tb[mm[2]]
+			if !ok {
+				if i := strings.Index(mm[2], "."); i >= 0 {
+					v, ok = tb[mm[2][:i]]
+				}
+			}
 			if !ok {
 				v, ok = tb["*"]
 			}
